@@ -57,8 +57,12 @@ class Engine(ExprMixin, ExprMixin2, StmtMixin, LoopMixin, CallMixin, CompMixin, 
         self.quant_goal = False
         self.private_pred = None
         self.back_edge_hook = None
+        self.class_info = None
+        self.background = []
+        self.iter_kinds = {}
         self.unannotated_loops = []
         self.inline_depth = 0
+        self.stale_loops = []
         self.auto_fields = []
         self.inlined = []
         # repo classes that get __iter__ from collections.abc.Sequence (index 0..len-1 through __getitem__): class -> backing list field
@@ -102,6 +106,8 @@ class Engine(ExprMixin, ExprMixin2, StmtMixin, LoopMixin, CallMixin, CompMixin, 
 
     # ---- verifying one function -----------------------------------------------------------------------------------------
     def resolve_fn(self, c):
+        if c.fn_override is not None and c.fn_override[1] is None:
+            return self.repo.function(getattr(c, "variant_of", c.qual.split("#")[0]))
         if c.fn_override is not None:
             return c.fn_override
         return self.repo.function(c.qual)
@@ -125,6 +131,9 @@ class Engine(ExprMixin, ExprMixin2, StmtMixin, LoopMixin, CallMixin, CompMixin, 
             else:
                 st.env[n] = self.fresh_of(ty, st, n)
                 v = st.env[n]
+                if v.k == "val" and v.t is not None:
+                    # a parameter that may be a reference denotes an object that existed at entry
+                    st.assume(z3.Implies(Val.is_R(v.t), z3.And(Val.r(v.t) >= 0, Val.r(v.t) < ALLOC0)))
                 if v.t is not None and v.k in ("ref", "val"):
                     st.old_ids.add(v.t.get_id())
                     if v.k == "ref" and z3.is_app(v.t) and v.t.num_args() == 1:
@@ -156,7 +165,8 @@ class Engine(ExprMixin, ExprMixin2, StmtMixin, LoopMixin, CallMixin, CompMixin, 
         self.loop_ordinals = {id(l): i for i, l in enumerate(self.repo.loops(fn))}
         stale = [k for k in c.loops if k >= len(self.loop_ordinals)]
         if stale:
-            raise SourceError(f"stale contract key: {qual} has {len(self.loop_ordinals)} loops but the sidecar names loop {stale}")
+            # the function no longer has the loop(s) the sidecar annotates: the annotations are ignored and the obligations decide
+            self.stale_loops.append((qual, len(self.loop_ordinals), stale))
         self.obligations = []
         st = self.initial_state(c, mod)
         self.check_signature(c, fn)
@@ -236,8 +246,11 @@ class Engine(ExprMixin, ExprMixin2, StmtMixin, LoopMixin, CallMixin, CompMixin, 
             env[n] = entry.env[n]          # contracts speak about the values the parameters had on entry
         saved = f.env
         f.env = dict(env)
+        for g in f.ghost.get("ghost_names", ()):       # loop ghosts stay visible to (internal) postconditions
+            if g in saved and g not in f.env:
+                f.env[g] = saved[g]
         try:
-            for i, cl in enumerate(c.ensures):
+            for i, cl in enumerate(list(c.ensures) + list(c.internal)):
                 goal = self.spec_eval(cl, f, None, old=entry, goal=True)
                 self.obligations.append(Obligation(f"{c.qual}:post:{i}#path{j}", "post", f.hyps(), goal, where=c.qual,
                                                    meta={"clause": cl, "trail": f.trail}))
